@@ -142,7 +142,7 @@ pub open spec fn marlin_hiding_ok(ck: &CommitterKey, p: &LabeledPolynomial, has_
 }
 pub struct MarlinKZG10;
 impl MarlinKZG10 {
-//@fn id=marlin_pc.commit file=poly-commit/src/marlin/marlin_pc/mod.rs scope="impl<E, P> PolynomialCommitment<E::ScalarField, P> for MarlinKZG10<E, P>" name=commit props=C01,C04,C07,C08,C17
+//@fn id=marlin_pc.commit file=poly-commit/src/marlin/marlin_pc/mod.rs scope="impl<E, P> PolynomialCommitment<E::ScalarField, P> for MarlinKZG10<E, P>" name=commit props=C01,C04,C07,C08,C17,C19
     fn commit<'a>(ck: &CommitterKey, polynomials: Vec<&'a LabeledPolynomial>, rng: Option<&mut Rng>) -> (res: Result<(Vec<LabeledCommitment<Commitment>>, Vec<Randomness>), Error>)
     requires
         ck_wf(ck),
@@ -152,13 +152,13 @@ impl MarlinKZG10 {
         // a polynomial above its declared bound / the supported degree, or with a bound the key was not trimmed for, is refused
         res is Ok ==> (forall|i: int| 0 <= i < polynomials@.len() ==> ((#[trigger] polynomials@[i]).degree_bound is Some ==>
             (ck.enforced_degree_bounds is Some && ck.enforced_degree_bounds->Some_0@.contains(polynomials@[i].degree_bound->Some_0)
-             && polynomials@[i].polynomial.degree_spec() <= polynomials@[i].degree_bound->Some_0 && polynomials@[i].degree_bound->Some_0 <= ck.max_degree))),   // name=marlin_pc.commit.bound_violations_are_refused props=C04,C17
-        res is Ok ==> (forall|i: int| 0 <= i < polynomials@.len() ==> (#[trigger] polynomials@[i]).polynomial.degree_spec() + 1 <= ck.powers@.len()),   // name=marlin_pc.commit.degree_beyond_key_is_refused props=C17,C04
-        res is Ok ==> res->Ok_0.0@.len() == polynomials@.len() && res->Ok_0.1@.len() == polynomials@.len(),   // name=marlin_pc.commit.one_commitment_and_state_per_polynomial props=C01
-        res is Ok ==> (forall|i: int| 0 <= i < polynomials@.len() ==> marlin_commit_one(ck, (#[trigger] polynomials@[i]), &res->Ok_0.0@[i], &res->Ok_0.1@[i])),   // name=marlin_pc.commit.commitments_are_the_key_defined_linear_maps props=C08,C01,C04,C07
-        (res is Ok && rng is None) ==> (forall|i: int| 0 <= i < polynomials@.len() ==> (#[trigger] polynomials@[i]).hiding_bound is None),   // name=marlin_pc.commit.hiding_without_rng_never_succeeds props=C07,C17
+             && polynomials@[i].polynomial.degree_spec() <= polynomials@[i].degree_bound->Some_0 && polynomials@[i].degree_bound->Some_0 <= ck.max_degree))),   // name=marlin_pc.commit.bound_violations_are_refused props=C04,C17,C19
+        res is Ok ==> (forall|i: int| 0 <= i < polynomials@.len() ==> (#[trigger] polynomials@[i]).polynomial.degree_spec() + 1 <= ck.powers@.len()),   // name=marlin_pc.commit.degree_beyond_key_is_refused props=C17,C04,C19
+        res is Ok ==> res->Ok_0.0@.len() == polynomials@.len() && res->Ok_0.1@.len() == polynomials@.len(),   // name=marlin_pc.commit.one_commitment_and_state_per_polynomial props=C01,C19
+        res is Ok ==> (forall|i: int| 0 <= i < polynomials@.len() ==> marlin_commit_one(ck, (#[trigger] polynomials@[i]), &res->Ok_0.0@[i], &res->Ok_0.1@[i])),   // name=marlin_pc.commit.commitments_are_the_key_defined_linear_maps props=C08,C01,C04,C07,C19
+        (res is Ok && rng is None) ==> (forall|i: int| 0 <= i < polynomials@.len() ==> (#[trigger] polynomials@[i]).hiding_bound is None),   // name=marlin_pc.commit.hiding_without_rng_never_succeeds props=C07,C17,C19
         // in-domain requests are answered: an error means some polynomial is out of domain
-        res is Err ==> (exists|i: int| 0 <= i < polynomials@.len() && !(marlin_admissible(ck, #[trigger] polynomials@[i]) && marlin_hiding_ok(ck, polynomials@[i], rng is Some))),   // name=marlin_pc.commit.only_out_of_domain_requests_are_refused props=C17,C01
+        res is Err ==> (exists|i: int| 0 <= i < polynomials@.len() && !(marlin_admissible(ck, #[trigger] polynomials@[i]) && marlin_hiding_ok(ck, polynomials@[i], rng is Some))),   // name=marlin_pc.commit.only_out_of_domain_requests_are_refused props=C17,C01,C19
 //@body
 //@rw * /&mut crate::optional_rng::OptionalRng\(rng\)/ => &mut optional_rng_wrap(rng)
 //@rw * /Some\(rng\)/ => Some(&mut *rng)
